@@ -541,12 +541,13 @@ example :
     `TM.replace`/`TM.fireCont` (new task only from the old task's done-callback) — replaceRegistersOnlyFromDoneCallback;
     `TM.pass` untracking only the finished task itself — doneCallbackUntracksOnlyItself;  no round of a periodic task after
     its own shutdown — periodicRunnerGetsStopCheck, periodicRunnerStopsAfterShutdown;  `RequestCache.add` after shutdown —
-    cacheAddRefusesWhenShutdown.
+    cacheAddRefusesWhenShutdown;  anonymous tasks (message handlers, @task calls) never being refused for a name that is
+    still in use — the model and the generator give every anonymous registration a fresh name — anonymousNamesNeverRepeat.
     With this pin the scheduler theorems below are about a model whose guard structure is that of the CURRENT source: if the
     code loses one of these guards, this theorem stops being provable (and the TaskManager correspondence / oracles supply
     the failing input). -/
 theorem scheduler_model_matches_source :
-    Gen.schedulerFacts.length = 17 ∧ ∀ f ∈ Gen.schedulerFacts, f.2 = true := by decide
+    Gen.schedulerFacts.length = 18 ∧ ∀ f ∈ Gen.schedulerFacts, f.2 = true := by decide
 
 
 /-- **active_name_refused** — while the manager is loaded, registering under a name whose task has not finished is
